@@ -181,7 +181,8 @@ def run(chk):
         chk.bad("R5", f"{OD}:ODVariable.__len__ | computed from the current data type", f.loc(r),
                 f"the bit length is returned from the stored attribute self.{attr}: data_type is a plain mutable attribute, after it changes the length is stale "
                 f"(length checks, PDO mapping and SDO truncation use the old width)")
-    if not typed and not cached:
+    evaluated = bit_length_by_type(chk, "R5")
+    if not typed and not cached and not evaluated:
         chk.unk("R5", f"{OD}:ODVariable.__len__", f.loc(), "no return derived from STRUCT_TYPES")
     for r in typed:
         want = {"8 * self.STRUCT_TYPES[self.data_type].size", "self.STRUCT_TYPES[self.data_type].size * 8"}
@@ -226,6 +227,42 @@ def run(chk):
     # ------------------------------------------------------------------ R8 instances are independent (shared clause)
     from . import shared as _shared
     _shared.isolation(chk, "R8", rels=['canopen/objectdictionary/__init__.py', 'canopen/objectdictionary/datatypes.py'])
+
+
+def bit_length_by_type(chk, rule: str) -> bool:
+    """ODVariable.__len__ specialised for every CiA 301 type code: the codec's width for the fixed-size types, a positive
+    number for all others (len() of a variable also decides its truth value: `names.get(k) or indices.get(k)` lookups and
+    `if var:` tests rely on every variable being truthy).  Returns False when the method cannot be specialised."""
+    import copy as _copy
+    from .common import partial_eval
+    repo, folder = ctx(chk)
+    f = repo.func(OD, "ODVariable.__len__", f"{chk.prop}.{rule}")
+    chk.saw(f)
+
+    class _T(ast.NodeTransformer):
+        def visit_Attribute(self, n):
+            if src(n) == "self.data_type":
+                return ast.copy_location(ast.Name(id="__dt__", ctx=ast.Load()), n)
+            return self.generic_visit(n)
+    node = _T().visit(_copy.deepcopy(f.node))
+    ast.fix_missing_locations(node)
+    wrong, unknown = [], None
+    for name, (tcode, kind, bits, _signed) in O.DATA_TYPES.items():
+        r = partial_eval(folder, node, f.mod, f.cls, {"__dt__": tcode})
+        if r[0] != "return" or not isinstance(r[1], int) or isinstance(r[1], bool):
+            unknown = f"{name}: {r}"
+            break
+        if bits is not None and r[1] != bits:
+            wrong.append(f"{name} -> {r[1]} bits (the type has {bits})")
+        elif bits is None and r[1] <= 0:
+            wrong.append(f"{name} -> {r[1]} (a variable of this type would be falsy: lookups by name and `if var` tests fail)")
+    if unknown is not None:
+        return False
+    chk.check(not wrong, rule, f"{OD}:ODVariable.__len__ | bit length of every data type", f.loc(),
+              "; ".join(wrong[:4]) + ": upload truncation, PDO mapping and the download length check use this width", f"specialised for {len(O.DATA_TYPES)} type codes")
+    bl = repo.cls(OD, "ODVariable", f"{chk.prop}.{rule}").methods.get("__bool__")
+    chk.check(bl is None, rule, f"{OD}:ODVariable.__bool__ | variables are always truthy", f.loc(), "ODVariable defines __bool__: dictionary lookups select by truthiness")
+    return True
 
 
 def _packer(chk, repo, folder: Folder, cls, signed: bool):
